@@ -21,9 +21,15 @@
 (* counterexample (a tag straddling two reads; premature Ends) - kept for  *)
 (* documentation, not part of the check.  Wrapper = "no_follow" drops the  *)
 (* "item after a buffered master" clause: also refuted by TLC.             *)
+(* UseDocs = TRUE replaces the enumeration of all short inputs by a fixed  *)
+(* set of longer documents (DocSet: corrupt headers that run past the end  *)
+(* of a buffered master, nested and adjacent buffered masters) with every  *)
+(* split into reads; Wrapper = "no_lookahead" (a buffered master counts as *)
+(* received with its extent and the item after it, although a child's      *)
+(* header may reach up to 15 bytes past the extent) is refuted there.      *)
 (***************************************************************************)
 EXTENDS ReaderCore, Schemas, TLC
-CONSTANTS MaxLen, Sigma, Wrapper
+CONSTANTS MaxLen, Sigma, Wrapper, UseDocs
 VARIABLES inp, avail, r, out, phase, nreads, buf
 vars == <<inp, avail, r, out, phase, nreads, buf>>
 BufSets == {{}, {B}, {A}, {A, B}}
@@ -31,6 +37,8 @@ P04 == INSTANCE P_C04
 Cfg == [allowId |-> FALSE, allowHier |-> FALSE, allowSize |-> FALSE, hasMax |-> FALSE, max |-> <<>>, buffered |-> buf, eofClose |-> TRUE, cap0 |-> 16]
 Blocking == ParseAll(S3, Cfg, inp)
 
+\* a tag header spans at most 16 bytes: a child header that starts on the last byte of a buffered master may reach 15 bytes past it
+Reach == 15
 RECURSIVE Received(_, _)
 Received(data, pos) ==
   LET h == HeaderAt(data, pos) IN
@@ -40,14 +48,21 @@ Received(data, pos) ==
     IF master /\ h.id \notin buf THEN TRUE
     ELSE IF h.unk THEN ~master
     ELSE IF ~master THEN have >= h.size
-    ELSE IF have < h.size THEN FALSE
+    ELSE IF have < h.size + (IF Wrapper = "no_lookahead" THEN 0 ELSE Reach) THEN FALSE
     ELSE IF Wrapper = "no_follow" THEN TRUE
     ELSE Received(data, pos + h.hlen + h.size)
 
+DocSet == { <<129, 129, 32, 137, 128, 137, 128, 137, 128>>,            \* A(1 byte){ a 3-byte id reaching past A's end } P P P
+            <<129, 131, 130, 129, 1, 137, 128, 139, 128, 139, 128>>,  \* A{B(1 byte){ an 8-byte id reaching past B and A }} ...
+            <<129, 134, 130, 130, 138, 128, 137, 128, 139, 128>>,     \* A{B{Q} P} R2
+            <<129, 132, 130, 128, 130, 128, 139, 128>>,               \* A{B{} B{}} R2: adjacent (empty) buffered masters
+            <<129, 133, 130, 131, 131, 129, 64, 137, 128>>,           \* A{B{C(1 byte){ 2-byte id cut by C's end }}} P
+            <<139, 129, 16, 139, 128, 129, 128>> }                     \* R2(1 byte){ a 4-byte id reaching past it } R2 A
 \* the wrapper may stop reading with a bytes received
 Ready(a) == r.queue # <<>> \/ Received(Take(inp, a), r.pos) \/ a = Len(inp)
 
-Init == inp = <<>> /\ avail = 0 /\ r = InitReader /\ out = <<>> /\ phase = "grow" /\ nreads = 0 /\ buf = {}
+Init == IF UseDocs THEN inp \in DocSet /\ avail = 0 /\ r = InitReader /\ out = <<>> /\ phase = "run" /\ nreads = 0 /\ buf \in BufSets \cup {{R2}}
+        ELSE inp = <<>> /\ avail = 0 /\ r = InitReader /\ out = <<>> /\ phase = "grow" /\ nreads = 0 /\ buf = {}
 Grow == phase = "grow" /\ Len(inp) < MaxLen /\ \E b \in Sigma : inp' = Append(inp, b) /\ UNCHANGED <<avail, r, out, phase, nreads, buf>>
 Start == phase = "grow" /\ phase' = "run" /\ buf' \in BufSets /\ UNCHANGED <<inp, avail, r, out, nreads>>
 \* the comparison ends with the first result that is not an item (an error may repeat for ever, here as in the blocking iterator)
